@@ -57,7 +57,22 @@ func vpDig(n int) string { return string(rune('0' + n)) }
 func VpC18Middleware() {
 	phase := vp.Choice("rulephase", 5) // 0 = no rule
 	reqLimit := 2 + vp.Choice("reqlimit", 2)
-	conf := "SecRuleEngine On\nSecRequestBodyAccess On\nSecResponseBodyAccess On\nSecResponseBodyMimeType text/plain\n" +
+	// response-body inspection: 0 configured On; 1 configured Off and switched on by a phase-3
+	// ctl for this transaction; 2 configured On for another MIME type only (the body is not
+	// inspected, so a phase-4 body rule cannot fire and the response passes through)
+	resMode := 0
+	if phase == 4 {
+		resMode = vp.Choice("resmode", 3)
+	}
+	resConf := "SecResponseBodyAccess On\nSecResponseBodyMimeType text/plain\n"
+	switch resMode {
+	case 1:
+		resConf = "SecResponseBodyAccess Off\nSecResponseBodyMimeType text/plain\n" +
+			"SecAction \"id:8,phase:3,pass,nolog,ctl:responseBodyAccess=On\"\n"
+	case 2:
+		resConf = "SecResponseBodyAccess On\nSecResponseBodyMimeType text/html\n"
+	}
+	conf := "SecRuleEngine On\nSecRequestBodyAccess On\n" + resConf +
 		"SecRequestBodyLimit " + vpDig(reqLimit) + "\nSecRequestBodyLimitAction ProcessPartial\nSecResponseBodyLimit 8\n" +
 		"SecAction \"id:9,phase:1,pass,nolog,ctl:requestBodyProcessor=RAW\"\n"
 	switch phase {
@@ -70,7 +85,7 @@ func VpC18Middleware() {
 	case 4:
 		conf += "SecRule RESPONSE_BODY \"@contains y\" \"id:1,phase:4,deny,status:404\"\n"
 	}
-	waf := vp.Setup("c18:"+vpDig(phase)+vpDig(reqLimit), func() any {
+	waf := vp.Setup("c18:"+vpDig(phase)+vpDig(reqLimit)+vpDig(resMode), func() any {
 		w, err := coraza.NewWAF(coraza.NewWAFConfig().WithDirectives(conf))
 		if err != nil {
 			panic(err)
@@ -184,7 +199,7 @@ func VpC18Middleware() {
 		vp.Assert(invoked, "handler not invoked although the request was clean")
 		vp.Assert(len(down.body) == 0, "response interrupted in phase 3 delivered handler body bytes")
 		vp.Assert(down.status == 403, "phase-3 interruption: client did not get the interruption status")
-	case phase == 4 && hasY:
+	case phase == 4 && hasY && resMode != 2:
 		vp.Assert(invoked, "handler not invoked although the request was clean")
 		vp.Assert(len(down.body) == 0, "response interrupted in phase 4 delivered handler body bytes")
 		vp.Assert(down.status == 404, "phase-4 interruption: client did not get the interruption status")
